@@ -1,4 +1,4 @@
-CONSTANTS NT = 2 MaxW = 1 MaxE = 2 MaxR = 1 Buffer = TRUE Deviations = {}
+CONSTANTS NT = 2 MaxW = 1 MaxE = 2 MaxR = 1 Buffer = TRUE Deviations = {} Starts = {"main"}
 SPECIFICATION Spec
 INVARIANT NoLeak
 INVARIANT Complete
